@@ -1,5 +1,6 @@
 import MqttVerif.Conn.Lemmas.Reset
 import MqttVerif.Conn.Lemmas.Session
+import MqttVerif.Conn.Lemmas.NewSession2
 /-!
 # C10 — connection-scoped state never leaks into the next connection or session
 -/
@@ -697,5 +698,118 @@ example : ConnStart C10ex.cfg 5 (.send C10ex.connectNC) C10ex.connectNC ∧ C10e
   ⟨.sent C10ex.connectNC rfl rfl (Or.inr rfl) (by decide) (fun _ => by decide), rfl,
    .mk [32, 3, 0, 0, 0] _ Framing.PB.reset 32 [0, 0, 0] [] C10ex.connackNew (by decide) (by decide)
      (by decide) (by decide) (Or.inr (by decide)) (by decide) rfl, rfl, rfl⟩
+
+/-! ## the new-session monitor is a theorem of the model (`VIOL sig=C10 old_session_survives@…`)
+
+The driver flags a call whose events contain a *new-session event* (`Mon.startsNewSession`:
+CONNECT with clean start sent / delivered, CONNACK(success, session not present) sent / delivered,
+delivered CONNACK(success) whose Session Expiry Interval is 0) and no `NotifyError`, when anything
+of the old session is left afterwards.  In the model such a call always ran `clearStoreRelated`. -/
+
+open NSn in
+/-- **C10, the call that starts a new session leaves nothing of the old one** (driver monitor
+    `VIOL sig=C10 old_session_survives@<site>`).  For every configuration, every state `s` whose
+    store holds no CONNECT / CONNACK (`StoreNS`: the store holds PUBLISH / PUBREL only — C05's
+    `StoreInv`), every operation (for a `recv`: a parser that answers with the packet type of the
+    frame and finds no Session Expiry Interval in a v3.1.1 packet, `ParseNS`): if the events of the
+    call contain a new-session event and no error event, then afterwards the store, the three QoS
+    wait sets and the set of handled inbound QoS 2 identifiers are empty and the identifier
+    allocator is completely free (it is `Alloc.clear` of the old one: a single free interval
+    spanning the whole range; no identifier is in use). -/
+theorem C10_new_session_leaves_nothing (cfg : Cfg) (s : St) (op : Op)
+    (hp : ∀ inp parse, op = .recv inp parse → ParseNS parse) (hst : StoreNS s)
+    (hns : Mon.startsNewSession (step cfg s op).ev = true)
+    (hne : Mon.hasError (step cfg s op).ev = false) :
+    (step cfg s op).s.store = [] ∧ (step cfg s op).s.puback = [] ∧ (step cfg s op).s.pubrec = [] ∧
+    (step cfg s op).s.pubcomp = [] ∧ (step cfg s op).s.handled = [] ∧
+    (step cfg s op).s.pidMan = Alloc.clear s.pidMan ∧
+    (step cfg s op).s.pidMan.pool = [⟨s.pidMan.lowest, s.pidMan.highest⟩] ∧
+    ∀ id, isUsed (step cfg s op).s id = false := by
+  rcases step_R cfg s op hp hst with h | h | ⟨h1, h2, h3, h4, h5, h6⟩
+  · exact absurd h ((startsNewSession_iff _).1 hns)
+  · rw [h] at hne; cases hne
+  · refine ⟨h1, h2, h3, h4, h5, h6, by rw [h6]; rfl, fun id => ?_⟩
+    simp only [isUsed, h6, Alloc.isUsed, Alloc.clear, Alloc.Free]
+    by_cases a : s.pidMan.lowest ≤ id <;> by_cases b : id ≤ s.pidMan.highest <;> simp [a, b]
+
+/-- the same in the exact shape of the monitor's allocator test: on an object whose allocator
+    manages `[1, idMax]` (`PidRange`: every object made by `new`, preserved by every call) the free
+    pool afterwards is the single interval `[1, 256^pw − 1]` -/
+theorem C10_new_session_all_ids_free (cfg : Cfg) (s : St) (op : Op) (hr : PidRange cfg s)
+    (hp : ∀ inp parse, op = .recv inp parse → NSn.ParseNS parse) (hst : NSn.StoreNS s)
+    (hns : Mon.startsNewSession (step cfg s op).ev = true)
+    (hne : Mon.hasError (step cfg s op).ev = false) :
+    (step cfg s op).s.pidMan.pool = [⟨1, 256 ^ cfg.pw - 1⟩] := by
+  have h := (C10_new_session_leaves_nothing cfg s op hp hst hns hne).2.2.2.2.2.2.1
+  rw [h, hr.1, hr.2.1]; rfl
+
+namespace C10ex
+/-- a CONNACK(success, session present = false) delivered to the reused client `s` (closed, then
+    reconnecting without clean start) -/
+def sReconn : St := (step cfg (closed cfg s) (.send connectNC)).s
+def connackOp : Op := .recv [32, 3, 0, 0, 0] (fun _ _ _ => .ok connackNew)
+/-- a parser that satisfies `ParseNS` on this frame and elsewhere answers "malformed" -/
+def parseConnack : Nat → Nat → List Nat → Except Nat Pkt :=
+  fun _ fh _ => if fh / 16 = 2 then .ok connackNew else .error eMalformed
+theorem parseConnack_ok : NSn.ParseNS parseConnack := by
+  intro v fh d p h
+  simp only [parseConnack] at h
+  split at h
+  · rename_i h2; cases h; exact ⟨by simp [connackNew, Kind.nibble, h2], fun _ => by decide⟩
+  · cases h
+end C10ex
+
+/-- the hypotheses of `C10_new_session_leaves_nothing` hold for a state full of session residue
+    (stored PUBLISH and PUBREL, wait sets, handled id, ids in use), and the conclusion is not
+    vacuous: before the call the store has two entries -/
+example : NSn.StoreNS C10ex.sReconn ∧ C10ex.sReconn.store.length = 2 ∧ C10ex.sReconn.handled = [9] ∧
+    Mon.startsNewSession (step C10ex.cfg C10ex.sReconn (.recv [32, 3, 0, 0, 0] C10ex.parseConnack)).ev = true ∧
+    Mon.hasError (step C10ex.cfg C10ex.sReconn (.recv [32, 3, 0, 0, 0] C10ex.parseConnack)).ev = false ∧
+    PidRange C10ex.cfg C10ex.sReconn := by
+  refine ⟨?_, by decide, by decide, by decide, by decide, by decide⟩
+  intro x hx
+  have : C10ex.sReconn.store = [(1, C10ex.pub), (2, C10ex.rel)] := by decide
+  rw [this] at hx
+  simp only [List.mem_cons, List.not_mem_nil, or_false] at hx
+  rcases hx with rfl | rfl <;> decide
+
+/-! ### the two hypotheses are needed (`decide`-checked on the model) -/
+namespace C10ex
+/-- a store holding a CONNECT with clean start (only reachable through `restorePackets` of a list
+    no real export contains): resuming the session "sends" it, the monitor sees a clean CONNECT
+    sent, and the store is of course not empty -/
+def cfgS : Cfg := ⟨.server, 2⟩
+def badStored : Pkt := { ver := 4, kind := .connect, clean := true, pid := some 5, size := 14 }
+def sBad : St :=
+  { (step cfgS (St.init cfgS 4) (.restorePackets [badStored])).s with status := .connecting }
+def connackSP : Pkt := { ver := 4, kind := .connack, rc := some 0, sp := true, size := 4 }
+end C10ex
+
+example : ¬ NSn.StoreNS C10ex.sBad ∧
+    Mon.startsNewSession (step C10ex.cfgS C10ex.sBad (.send C10ex.connackSP)).ev = true ∧
+    Mon.hasError (step C10ex.cfgS C10ex.sBad (.send C10ex.connackSP)).ev = false ∧
+    (step C10ex.cfgS C10ex.sBad (.send C10ex.connackSP)).s.store.length = 1 := by
+  refine ⟨?_, by decide, by decide, by decide⟩
+  intro h
+  have : (5, C10ex.badStored) ∈ C10ex.sBad.store := by decide
+  exact (h _ this).1 rfl
+
+namespace C10ex
+/-- a v3.1.1 CONNACK(session present) "carrying" Session Expiry Interval 0 (no v3.1.1 packet has
+    properties; an arbitrary `parse` may claim so): the monitor's rule reads it as a new session,
+    the v3.1.1 handler does not look at properties and resumes -/
+def cfgC : Cfg := ⟨.client, 2⟩
+def pub4 : Pkt := { ver := 4, kind := .publish, qos := 1, pid := some 1, dup := true, topic := [116], size := 7 }
+def sC4 : St :=
+  { St.init cfgC 4 with
+    status := .connecting, needStore := true, store := [(1, pub4)], puback := [1]
+    pidMan := (Alloc.useValue (Alloc.new 1 65535 65535) 1).2 }
+def connackV4Props : Pkt := { ver := 4, kind := .connack, rc := some 0, sp := true, size := 4, props := [(pSEI, 0)] }
+end C10ex
+
+example : Mon.startsNewSession (step C10ex.cfgC C10ex.sC4 (.recv [32, 2, 1, 0] (fun _ _ _ => .ok C10ex.connackV4Props))).ev = true ∧
+    Mon.hasError (step C10ex.cfgC C10ex.sC4 (.recv [32, 2, 1, 0] (fun _ _ _ => .ok C10ex.connackV4Props))).ev = false ∧
+    (step C10ex.cfgC C10ex.sC4 (.recv [32, 2, 1, 0] (fun _ _ _ => .ok C10ex.connackV4Props))).s.store.length = 1 := by
+  decide
 
 end MqttVerif.Conn
